@@ -4,6 +4,7 @@
 import PjVerif.Lemmas.SchedC04
 import PjVerif.Lemmas.ScheduleSrc
 import PjVerif.Lemmas.PassSrc
+import PjVerif.Lemmas.PassSrcBwd
 namespace Pj
 
 /-- forward schedules: conservation, at most one row per task and day, rows inside [start day, end) and never
@@ -80,5 +81,16 @@ theorem C04_source_forward_pass (env : Env) (ms : Uid → Bool) (wfuel : Nat)
     PassSrc.interpFwdPass env wfuel (PassSrc.calRef σ.res) fuel' (PassSrc.encS env ms σ) t minDate =
       (fwdPass env fuel stk σ t minDate).map (PassSrc.encS env ms) :=
   PassSrc.interpFwdPass_eq env ms wfuel hms hw fuel fuel' hle stk σ t minDate hne
+
+/-- the translated `BackwardScheduler.__backward_pass` (Extracted/PassSrc.lean), interpreted on the encoding of a model state,
+    is the encoding of the model's `bwdPass` - unless the model run ends in RecursionError (see `*_source_forward_pass`).
+    `encSB` is `encS` with the tasks' successor lists. -/
+theorem C04_source_backward_pass (env : Env) (ms : Uid → Bool) (wfuel : Nat)
+    (hms : ∀ u, (env.info u).milestone = (ms u && (env.info u).children.isEmpty))
+    (hw : Extracted.bwdShiftMaxSteps < wfuel) (fuel fuel' : Nat) (hle : fuel ≤ fuel') (stk : List Uid) (σ : SS)
+    (t : Uid) (minDate : Time) (hne : bwdPass env fuel stk σ t minDate ≠ .error (.crash .recursion)) :
+    PassSrcBwd.interpBwdPass env wfuel (PassSrc.calRef σ.res) fuel' (PassSrcBwd.encSB env ms σ) t minDate =
+      (bwdPass env fuel stk σ t minDate).map (PassSrcBwd.encSB env ms) :=
+  PassSrcBwd.interpBwdPass_eq env ms wfuel hms hw fuel fuel' hle stk σ t minDate hne
 
 end Pj
